@@ -137,6 +137,19 @@ Theorem C01_roundtrip_nodesc : forall period ops, history_ok no_desc16 (new_muxe
 Proof. exact roundtrip_history_nodesc. Qed.
 Print Assumptions C01_roundtrip_nodesc.
 
+(* the same read per PID, as the property is worded: every result is Ok, and for every PID other than those of the
+   tables the data delivered on it are exactly the PES written on it -- one per successful WriteData, in call order
+   (written_on), none lost, duplicated or reordered *)
+Theorem C01_roundtrip_per_pid : forall (D : list Descriptor -> list Z -> Prop),
+  desc_premises D -> (forall ds bytes, D ds bytes -> desc_bytes ds bytes) -> D [] [] ->
+  (forall ds bytes, D ds bytes ->
+     fold_left (fun k d => k + (2 + Desc.calc_descriptor_length d)) ds 0 = Z.of_nat (length bytes)) ->
+  forall period ops, history_ok D (new_muxer period) ops ->
+  exists L, demux_all (concat (map mout_bytes (snd (mux_run (new_muxer period) ops)))) = map Ok L /\
+    forall x, x <> C_PIDPAT -> x <> C_pmtStartPID -> filter (on_x x) L = written_on x (new_muxer period) ops.
+Proof. exact roundtrip_per_pid. Qed.
+Print Assumptions C01_roundtrip_per_pid.
+
 (* the hypotheses are satisfiable: Add 0x101 (H.264); SetPCRPID 0x101; WriteData (PTS, 300 bytes: emits the tables first);
    WriteData (PTS, 500 bytes); WriteTables -- and what must come out is PAT, PMT, the first PES (when the second unit
    starts), PAT, PMT, and the second PES at end of stream *)
